@@ -74,7 +74,9 @@ def _case(rng, copt, sopt, hp, sizes, nrounds, backend, noise):
 
 
 def generate(tier, rng):
-  n_cfg = {'quick': 52, 'thorough': 260, 'search': 400}[tier]
+  if tier != 'search':
+    fs.prestart('c01', ['pmap3', 'rbg', 'hash1'] + ([] if tier == 'quick' else ['tfp0', 'tfp1', 'x64', 'rankraise', 'hash2']))
+  n_cfg = {'quick': 48, 'thorough': 260, 'search': 400}[tier]
   # fixed corner cases first: all-empty rounds, zero clients, drop_remainder with n < bs, every backend
   for b in BACKENDS:
     yield _case(rng, SGD(0.125), SGD(1.0), _hp(HPS[0], 1), [0, 0], 2, b, True)
@@ -128,6 +130,32 @@ def generate(tier, rng):
   for flag in (['rbg'] if tier == 'quick' else ['rbg', 'tfp0', 'tfp1', 'x64', 'rankraise']):
     for k in range(2 if tier == 'quick' else 3):
       yield dict(_case(rng, SGD(0.125, 0.5), SGD(1.0), _hp(HPS[k], 4), [4, 2, 6, 0], 2, ['jit', 'pmap', 'debug'][k], True), flags=flag)
+  # WAVE5 item 2: the step-count formula on an exhaustive grid (one case)
+  yield {'grid': list(GRID['quick' if tier == 'quick' else 'thorough'])}
+  # item 1: memory layouts of the dataset arrays (Fortran order, transposed view, strided, reversed, column slice of a wider
+  # array, read-only) and of numpy params (read-only / strided); item 6: params in tuple / NamedTuple / list / nested dict /
+  # haiku FlatMap containers
+  for j, lay in enumerate(fs.LAYOUTS[1:]):
+    yield dict(_case(rng, SGD(0.125, 0.5), SGD(1.0, 0.5), _hp(HPS[j % 3], j), [5, 3, 0, 4], 2, ['jit', 'pmap', 'debug'][j % 3], True), layout=lay,
+               forms={'clients': 'list', 'ids': 'bytes', 'init': ['numpy_ro', 'numpy_nc'][j % 2], 'key': 'jax',
+                      'leaves': ['tuple', 'named', 'list', 'nested', 'flatmap', 2][j]})
+  # item 3: ill-conditioned data: parameters with a large offset (mean >> spread of the update; tolerance relative to the
+  # parameter scale), and mirrored clients whose deltas cancel exactly in the mean
+  yield dict(_case(rng, SGD(0.125), SGD(1.0), _hp(HPS[0], 4), [4, 6, 3], 2, 'jit', False), init=[256.0, -1024.0], tolscale=1024.0, cond='offset')
+  yield dict(_case(rng, SGD(0.0625, 0.5), SGD(0.5), _hp(HPS[3], 4), [5, 2], 2, 'pmap', False), init=[-4096.0, 4096.25], tolscale=4096.0, cond='offset')
+  m = _case(rng, SGD(0.25), SGD(1.0), _hp((4, None, 1, False), 4), [4], 1, 'jit', False)
+  m['init'] = [0.0, 0.0]
+  m['pop'] = {'0': m['pop']['0'], '1': {'x': m['pop']['0']['x'], 'y': [-v for v in m['pop']['0']['y']]}}
+  m['rounds'], m['perm'], m['cond'] = [[['1', 3], ['0', 5]]], [1, 0], 'cancelling'
+  yield m
+  # item 4: the same case in a second interpreter with another PYTHONHASHSEED (bytes / str ids)
+  for ids, tag in (('bytes', 'hash1'), ('str', 'hash1')) if tier == 'quick' else (('bytes', 'hash1'), ('str', 'hash1'), ('str', 'hash2'), ('int', 'hash2')):
+    yield dict(_case(rng, SGD(0.125, 0.5), SGD(1.0, 0.5), _hp(HPS[0], 4), [4, 2, 6, 0, 3], 2, 'jit', True), hashcheck=tag,
+               forms={'clients': 'list', 'ids': ids, 'init': 'jax', 'key': 'jax', 'leaves': 1})
+  # item 5: coincidences that invite fast paths, each followed by further calls: a single client, a cohort that is the whole
+  # population, weights exactly 1, one batch that holds the whole dataset
+  yield _case(rng, SGD(0.125, 0.5), SGD(1.0, 0.5), _hp((4, 1, None, False), 4), [4], 3, 'jit', True)
+  yield _case(rng, SGD(0.125, 0.5), SGD(1.0, 0.5), _hp((1, 1, None, False), 4), [1, 1, 1], 3, 'pmap', True)
   # federated_averaging is built many times per process from the SAME grad_fn object (fedsim.shared_grad) with different
   # optimizers / hparams; re-run the first-built algorithm objects after all the others exist (hidden shared state)
   for b in BACKENDS[:2]:
@@ -173,6 +201,7 @@ def _apply(alg, rec, state, cds, rnd, case, watch=None):
     for cid, _, k in clients:
       watch.watch(f'key of {cid!r}', k)
   ctx = jax.disable_jit() if case['backend'] == 'nojit' else contextlib.nullcontext()
+  params_in = state.params
   with ctx:
     state, diag = alg.apply(state, clients)
   jax.block_until_ready(state.params)
@@ -180,6 +209,7 @@ def _apply(alg, rec, state, cds, rnd, case, watch=None):
                  'diag': [[fs.cid_back(k), float(v['delta_l2_norm'])] for k, v in diag.items()],
                  'diag_key_types': sorted({type(k).__name__ for k in diag}),
                  'diag_extra_keys': sorted({kk for v in diag.values() for kk in v} - {'delta_l2_norm'}),
+                 'structure_ok': bool(fs.same_structure(params_in, state.params)),
                  'calls': list(rec.calls)}
 
 
@@ -213,7 +243,7 @@ def _oracle_poison(case, obs):
 def run_local(case):
   alg, rec = _alg(case)
   forms = case.get('forms', fs.FORMS0)
-  cds = {c: fs.client_dataset(d, case.get('xdtype', 'float32')) for c, d in _pop(case).items()}
+  cds = {c: fs.client_dataset(d, case.get('xdtype', 'float32'), case.get('layout', 'c')) for c, d in _pop(case).items()}
   obs = {'err': None, 'rounds': [], 'perm': None, 'nozero': None, 'reinit': None, 'fresh': None, 'caller': []}
   obs['streams'] = {c: fs.record_stream(cds[c], case['hp']) for c in sorted(cds)}
   obs['nus'] = [[fs.nu_stream(s, len(obs['streams'][c])) if case['noise'] else [0.0] * len(obs['streams'][c])
@@ -264,8 +294,43 @@ def worker_tag(case):
   return case.get('flags') or ('pmap3' if case['backend'] == 'pmap3' else None)
 
 
+GRID = {'quick': (12, 5, 3, 4), 'thorough': (30, 9, 5, 7)}
+
+
+def run_grid(g):
+  """Observed number of batches of the REAL shuffle_repeat_batch view for every point of the grid (counted iteration;
+  the totals are small), in the enumeration order of Model/C01_Model.grid_points."""
+  import fedjax
+  nmax, bmax, emax, smax = g
+  out = []
+  for n in range(nmax + 1):
+    ds = fedjax.ClientDataset({'i': np.arange(n, dtype=np.int32)})
+    for bs in range(1, bmax + 1):
+      for e in [None] + list(range(emax + 1)):
+        for st in [None] + list(range(smax + 1)):
+          if e is None and st is None:
+            continue
+          for drop in (False, True):
+            k = 0
+            for _ in ds.shuffle_repeat_batch(batch_size=bs, num_epochs=e, num_steps=st, drop_remainder=drop, seed=0):
+              k += 1
+              if k > 10000:
+                break
+            out.append(k)
+  return out
+
+
 def run(case):
+  if case.get('grid'):
+    return {'err': None, 'grid': run_grid(case['grid']), 'rounds': []}
   tag = worker_tag(case)
+  if tag is None and case.get('hashcheck'):
+    # the same case in this process and in a second interpreter with another PYTHONHASHSEED: bit-identical results
+    obs = run_local(case)
+    other = fs.run_in_worker('c01', case['hashcheck'], dict(case, hashcheck=None))
+    obs['other_process'] = {'rounds': [(o['params'], o['trace'], o['diag']) for o in other.get('rounds', [])],
+                            'err': other.get('err') or other.get('worker_error')}
+    return obs
   if tag is None:
     return run_local(case)
   obs = fs.run_in_worker('c01', tag, case)
@@ -283,8 +348,29 @@ def _members(case, obs, r):
           for j, (c, _) in enumerate(case['rounds'][r])]
 
 
+def _grid_expected(g):
+  nmax, bmax, emax, smax = g
+  out = []
+  for n in range(nmax + 1):
+    for bs in range(1, bmax + 1):
+      for e in [None] + list(range(emax + 1)):
+        for st in [None] + list(range(smax + 1)):
+          if e is None and st is None:
+            continue
+          for drop in (False, True):
+            out.append(fs.expected_num_steps(n, {'bs': bs, 'epochs': e, 'steps': st, 'drop': drop}))
+  return out
+
+
 def oracle(case, obs):
   out = []
+  if case.get('grid'):
+    want = _grid_expected(case['grid'])
+    bad = [i for i, (a, b) in enumerate(zip(obs['grid'], want)) if a != b]
+    if bad or len(want) != len(obs['grid']):
+      return [('batch-count-grid', f'{len(bad)} of {len(want)} (N, batch_size, num_epochs, num_steps, drop_remainder) points have another '
+               f'number of batches than documented; first index {bad[:1]}')]
+    return []
   if obs.get('err'):
     return [('apply-raised:' + obs['err'], 'federated_averaging raised %s' % obs['err'])]
   if case['backend'] == 'pmap3' and (obs.get('worker') or {}).get('devices') != 3:
@@ -293,7 +379,7 @@ def oracle(case, obs):
     out.append(('harness-flags', 'the x64 worker does not run with jax_enable_x64'))
   if case.get('poison'):
     return out + _oracle_poison(case, obs)
-  tol = TOL_ADAM if 'adam' in (case['copt']['kind'], case['sopt']['kind']) else TOL
+  tol = (TOL_ADAM if 'adam' in (case['copt']['kind'], case['sopt']['kind']) else TOL) * case.get('tolscale', 1.0)
   hp = case['hp']
   for c, st in obs['streams'].items():
     n = len(case['pop'][c]['y'])
@@ -346,6 +432,13 @@ def oracle(case, obs):
     prev_t = o['trace']
   for what in obs.get('caller', []):
     out.append(('caller-data', what))
+  if any(not o.get('structure_ok', True) for o in obs['rounds']):
+    out.append(('tree-structure', 'the returned params do not have the tree structure / container type of the input params'))
+  if case.get('hashcheck') and 'other_process' in obs:
+    mine = [(o['params'], o['trace'], o['diag']) for o in obs['rounds']]
+    if obs['other_process']['err'] or json.dumps(obs['other_process']['rounds']) != json.dumps(mine):
+      out.append(('process-dependent', f'another interpreter (PYTHONHASHSEED of worker {case["hashcheck"]}) gives '
+                  f'{str(obs["other_process"])[:200]} instead of {str(mine)[:200]}'))
   if len(obs['rounds']) == len(case['rounds']) and obs['rounds']:
     p0 = obs['rounds'][0]['params']
     want_type = {'bytes': ['bytes'], 'str': ['str'], 'int': ['int'], 'negint': ['int'], 'none0': ['NoneType', 'int']}[case.get('forms', fs.FORMS0)['ids']]
@@ -381,6 +474,10 @@ def _zid(c):
 
 
 def encode(case, obs):
+  if case.get('grid'):
+    g = case['grid']
+    grid = f'(Some (({g[0]})%Z, ({g[1]})%Z, ({g[2]})%Z, ({g[3]})%Z, ({fw.zlist(obs["grid"])})%Z))'
+    return (f'(mkC01 (mkSgd 0 0 false) (mkSgd 0 0 false) false [] [] [] [] 0 (1%Z, None, None, false) {grid}, [])')
   if obs.get('err') or case['copt']['kind'] != 'sgd' or len(obs['rounds']) != len(case['rounds']) or case.get('poison'):
     return None
   opaque = case['sopt']['kind'] != 'sgd'
@@ -390,9 +487,9 @@ def encode(case, obs):
   rounds = fw.clist([fw.clist([f'({_zid(c)}, {fw.qlist(nus)})' for (c, _), nus in zip(rnd, obs['nus'][r])])
                      for r, rnd in enumerate(case['rounds'])])
   sopt = _sgd(case['sopt']) if not opaque else '(mkSgd 0 0 false)'
-  tol = TOL_ADAM if opaque else TOL
+  tol = (TOL_ADAM if opaque else TOL) * case.get('tolscale', 1.0)
   cterm = (f'(mkC01 {_sgd(case["copt"])} {sopt} {fw.cbool(opaque)} {fw.qlist(case["init"])} {pop} {streams} {rounds} {fw.qlit(tol)} '
-           f'(({case["hp"]["bs"]})%Z, {_optz(case["hp"]["epochs"])}, {_optz(case["hp"]["steps"])}, {fw.cbool(case["hp"]["drop"])}))')
+           f'(({case["hp"]["bs"]})%Z, {_optz(case["hp"]["epochs"])}, {_optz(case["hp"]["steps"])}, {fw.cbool(case["hp"]["drop"])}) None)')
   ors = []
   for o in obs['rounds']:
     if len(o['calls']) != 1:
@@ -405,14 +502,19 @@ def encode(case, obs):
 
 
 def nontrivial(case, obs):
+  if case.get('grid'):
+    return True
   return any(sum(len(case['pop'][c]['y']) for c, _ in rnd) > 0 for rnd in case['rounds'])
 
 
 def describe(case, obs):
+  if case.get('grid'):
+    return {'kind': 'step-count grid', 'grid_points': len(obs['grid'])}
   tot = [sum(len(case['pop'][c]['y']) for c, _ in rnd) for rnd in case['rounds']]
   f = case.get('forms', fs.FORMS0)
   return {'backend': case['backend'], 'rounds': len(case['rounds']), 'forms': f"{f['clients']}/{f['ids']}/{f['init']}/{f['key']}/{f.get('leaves', 1)}leaf",
           'xdtype': case.get('xdtype', 'float32'), 'hparams_seed0': case['hp']['seed'] == 0,
+          'layout': case.get('layout', 'c'), 'hashcheck': case.get('hashcheck') or 'no', 'conditioning': case.get('cond', 'plain'),
           'data_scale_log2': case.get('scale', 0), 'jax_flags': case.get('flags') or 'default', 'poisoned': bool(case.get('poison')),
           # hypothesis of the theorems: client ids of a cohort are distinct (a case violating it is judged by the oracle only)
           'hyp_nodup_ids': all(len({c for c, _ in rnd}) == len(rnd) for rnd in case['rounds']), 'clients_round0': len(case['rounds'][0]),
@@ -425,6 +527,12 @@ def describe(case, obs):
 
 
 def shrink(case):
+  if case.get('grid'):
+    g = case['grid']
+    for i in range(4):
+      if g[i] > 1:
+        yield {'grid': [v - (1 if j == i else 0) for j, v in enumerate(g)]}
+    return
   if len(case['rounds']) > 1:
     yield dict(case, rounds=case['rounds'][:-1])
     yield dict(case, rounds=case['rounds'][1:], perm=list(range(len(case['rounds'][1]))))
